@@ -80,3 +80,9 @@ func nodeFor(req mon.OpReq) *onnx.NodeProto {
 	}
 	return n
 }
+
+// runProtoModel marshals a ModelProto, loads it with NewModelFromBytes and runs it
+// without inputs; the named outputs are returned in order.
+func runProtoModel(mp *onnx.ModelProto, outputs []string) mon.Outcome {
+	return mon.RunModelProto(mp, nil, outputs)
+}
